@@ -289,7 +289,7 @@ def OpeningAlone (lines : List Str) : Prop :=
 theorem openBlock_lines (lines : List Str) (lineno : Nat) (o : Option Opened) (d : List BDiag)
     (h : openBlock lines lineno = .ok (o, d)) (halone : OpeningAlone lines) :
     (∀ x ∈ d, lineno ≤ x.line ∧ x.line < lineno + lines.length) ∧
-    (∀ op, o = some op → op.lines.length + 1 ≤ lines.length) := by
+    (∀ op, o = some op → op.lines.length + 2 ≤ lines.length) := by
   unfold openBlock at h
   cases lines with
   | nil => simp at h
@@ -339,13 +339,20 @@ theorem openBlock_lines (lines : List Str) (lineno : Nat) (o : Option Opened) (d
                 (allLine_ite _ (allLine_nil _) (allLine_mkDiag _ _ _ _ _)) x hx
             · intro op ho
               cases ho
-              simp only []
-              split
-              · simp only [List.length_dropLast, List.length_cons]; omega
-              · simp only [List.length_append, List.length_dropLast, List.length_cons, List.length_nil]
-                cases rest with
-                | nil => simp at hn1
-                | cons _ _ => simp
+              simp only [List.length_dropLast, List.length_cons]
+              cases rest with
+              | nil => simp at hn1
+              | cons _ _ => simp
+
+theorem lineStepAt_grows (h : Hdr) (st : BSt) (ln base : Nat) (orig line : Str) (st' : BSt)
+    (hs : lineStepAt h st ln base orig line = .ok st') : GrowsD st.diags st'.diags ln := by
+  unfold lineStepAt at hs
+  have ha : AllLine ln (stripAsteriskAt ln base orig line).1 := by
+    unfold stripAsteriskAt
+    split
+    · exact allLine_ite _ (allLine_nil _) (allLine_mkDiag _ _ _ _ _)
+    · exact allLine_nil _
+  exact growsD_trans ⟨_, rfl, ha⟩ (lineBody_grows _ _ _ _ _ _ _ hs)
 
 /-- Every diagnostic of the block state machine names a line of the block: with the opening token alone
     on its line, the named line lies between the first and the last source line of the comment. -/
@@ -363,13 +370,25 @@ theorem parseBlock_diag_lines (comment : Str) (lineno : Nat) (b : Option BlockM)
     split at h
     · cases h
     · rename_i st hl
-      cases h
       obtain ⟨d1, hd1, hl1⟩ := lineLoop_lines op.hdr op.lines lineno _ st hl
       have hlen' := hlen op rfl
-      intro x hx
-      rw [hd1] at hx
-      rcases List.mem_append.mp hx with h0 | h1
-      · exact hd0 x h0
-      · have := hl1 x h1; omega
+      have hloop : ∀ x ∈ st.diags, lineno ≤ x.line ∧ x.line < lineno + (commentLines comment).length := by
+        intro x hx
+        rw [hd1] at hx
+        rcases List.mem_append.mp hx with h0 | h1
+        · exact hd0 x h0
+        · have := hl1 x h1; omega
+      split at h
+      · cases h; exact hloop
+      · split at h
+        · cases h
+        · rename_i st' hs'
+          cases h
+          obtain ⟨d2, hd2, hl2⟩ := lineStepAt_grows _ _ _ _ _ _ _ hs'
+          intro x hx
+          rw [hd2] at hx
+          rcases List.mem_append.mp hx with h0 | h1
+          · exact hloop x h0
+          · rw [hl2 x h1]; omega
 
 end GIVerif.AnnParse
